@@ -9,7 +9,8 @@ Model of the multi-repository part of `/repo/ak/ghist.py` (C07), on top of `Mode
 * `pendingBumps`                    — pending bumps of the "not merged" pseudo build (the component's own pseudo
                                       build counts as its latest build)
 * `mkPlug`                          — everything `Model/Ghist.lean` needs to know about the components
-* `inBump` / `registrations`        — `ComponentBump.get_rbuilds_in_bump` and the `included_at` loop at the end of
+* `rbClosure` / `inBump` / `registrations` — `ComponentBump.get_rbuilds_in_bump` (incl. the `known_iids` closure of
+                                      commit 88b742a) and the `included_at` loop at the end of
                                       `RGraph.__init__`
 * `sortRepos`                       — the ordering DFS of `ReposCollection.__init__` (level lists walked from the end,
                                       stack of path names, `ValueError` on a cycle)
@@ -142,20 +143,33 @@ def mkPlug (comps : List (Nat × Graph Bumps)) : Plug Pins Bumps :=
 
 /-! ## `included_at` -/
 
-/-- `ComponentBump.get_rbuilds_in_bump` as a set: the component builds reachable from `to_rbuild` through parent
-builds without entering `from_rbuilds` -/
-def inBump {β} (g : Graph β) (from_ : List Nat) : Nat → List Nat → Nat → Except Err (List Nat)
+/-- `known_iids` of `ComponentBump.get_rbuilds_in_bump` : the builds of the previous versions with all the builds
+they contain (closure of `from_rbuilds` under parent builds) -/
+def rbClosure {β} (g : Graph β) : Nat → List Nat → Nat → Except Err (List Nat)
   | 0, _, _ => .error .outOfFuel
   | fuel + 1, seen, x =>
-    if from_.contains x || seen.contains x then .ok seen
+    if seen.contains x then .ok seen
     else match g.findBuild x with
       | none => .error .keyError
-      | some b => b.parents.foldlM (inBump g from_ fuel) (x :: seen)
+      | some b => b.parents.foldlM (rbClosure g fuel) (x :: seen)
+
+/-- the DFS of `ComponentBump.get_rbuilds_in_bump` as a set: the component builds reachable from `to_rbuild`
+through parent builds without entering `stop` (= `known_iids`) -/
+def inBump {β} (g : Graph β) (stop : List Nat) : Nat → List Nat → Nat → Except Err (List Nat)
+  | 0, _, _ => .error .outOfFuel
+  | fuel + 1, seen, x =>
+    if stop.contains x || seen.contains x then .ok seen
+    else match g.findBuild x with
+      | none => .error .keyError
+      | some b => b.parents.foldlM (inBump g stop fuel) (x :: seen)
 
 def rbuildsInBump (g : Graph Bumps) (b : Bump) : Except Err (List Nat) :=
   match b.toRb with
   | none => .ok []
-  | some x => inBump g b.fromRbs (x + 1) [] x
+  | some x =>
+    match b.fromRbs.foldlM (fun seen f => rbClosure g (f + 1) seen f) [] with
+    | .error e => .error e
+    | .ok known => inBump g known (x + 1) [] x
 
 /-- one `included_at` entry: (parent repository, parent branch name, parent build number) registered in a build of
 a component -/
